@@ -195,6 +195,11 @@ class WindowMonitor:
                 ck.violation('emitted-initiator-flag-does-not-match-role', {'hdr': h}, case)
             peer_slot = h['spi_r'] if h['flags'] & 0x08 else h['spi_i']
             first_init = h['exch'] == 34 and not resp
+            if first_init:
+                ck.count('win.emitted_ike_sa_init_requests')
+                if h['spi_r'] != b'\0' * 8:
+                    # RFC 7296 3.1: zero in the first message of the initial exchange, "including repeats of that message including a cookie" (and after INVALID_KE_PAYLOAD)
+                    ck.violation('ike-sa-init-request-carries-a-non-zero-responder-spi', {'hdr': h, 'ike_sa_peer_spi': bytes(sa.peer_spi)}, case)
             if peer_slot != bytes(sa.peer_spi) and not (first_init and peer_slot == b'\0' * 8) and not (h['exch'] == 34 and resp):
                 ck.violation('emitted-peer-spi-wrong', {'hdr': h, 'peer_spi': bytes(sa.peer_spi)}, case)
             if resp:
